@@ -9,8 +9,9 @@
    An operation is a function on the machine state with the write points of the code; it returns or raises.
 
    Configurations: `cur` is the code as it is now; `old` is the code before the repairs bf317fcd (RemoteJob._from_dict
-   restores job_context from the stored body) and 13320b52 (JobGroup.add prepares and validates the payload before
-   the append, with or without keyword arguments). `old` is kept only for the historical `_old_code` witnesses.
+   restores job_context from the stored body), 13320b52 (JobGroup.add prepares and validates the payload before
+   the append, with or without keyword arguments) and 9afb11d4 (_launch_jobs writes once more on leaving its loop,
+   normally or by an exception, iff the jobs differ from what was last written or read). `old` is kept only for the historical `_old_code` witnesses.
 
    Faithful quirks (each is visible in the Python source):
    * _to_dict stores status None for an unsent job, and no body for a SUCCESS job;
@@ -137,9 +138,11 @@ Definition dummy_pay : payload := mkpay None None 0.
 
 (* which version of the code *)
 Record cfg := mkcfg { restore_ctx : bool;      (* bf317fcd *)
-                      add_validates : bool }.  (* 13320b52 *)
-Definition cur : cfg := mkcfg true true.
-Definition old : cfg := mkcfg false false.
+                      add_validates : bool;    (* 13320b52 *)
+                      write_on_exit : bool }.  (* 9afb11d4 *)
+Definition cur : cfg := mkcfg true true true.
+Definition old : cfg := mkcfg false false false.
+Definition before_9afb11d4 : cfg := mkcfg true true false.
 
 (* JobGroup._build_remote_job + RemoteJob._from_dict *)
 Definition from_disk (c : cfg) (d : djob) : job :=
@@ -170,7 +173,8 @@ Definition script := list answer.
 Definition pop (sc : script) : answer * script :=
   match sc with [] => (AFatal, []) | a :: t => (a, t) end.
 
-Inductive req := RCreate (b : body) | RRerun (id : option Z) | RStatus (id : option Z).
+(* what the outside world sees, in order: HTTP requests, and whole-file writes (PersistentData.write_file) *)
+Inductive req := RCreate (b : body) | RRerun (id : option Z) | RStatus (id : option Z) | RWrite.
 
 (* exceptions *)
 Inductive outcome := Returned | Raised (e : Z).
@@ -193,7 +197,7 @@ Definition poll (j : job) (sc : script) : pollres * script :=
 Definition polls (j : job) : bool := sent j && negb (completed (jst j)).
 
 (* ---------------------------------------------------------------- machine *)
-(* udirty is a ghost flag (not a Python variable): "a status changed in memory through a poll inside a launch
+(* udirty is a ghost flag (not a Python variable; instrumentation for the analysis of the code before 9afb11d4 only): "a status changed in memory through a poll inside a launch
    loop and no write has happened since". It is reset at every write and at the start of every operation. *)
 Record mach := mkm { mem : list job; disk : list djob; scr : script; rlog : list req; udirty : bool }.
 
@@ -213,7 +217,7 @@ Fixpoint upd_loop (pre post : list job) (dk : list djob) (sc : script) (lg : lis
             if changed j j' then
               match save (pre ++ j' :: post') with
               | None => (pre ++ j' :: post', dk, sc', lg', Raised E_TYPE)
-              | Some d => upd_loop (pre ++ [j']) post' d sc' lg'
+              | Some d => upd_loop (pre ++ [j']) post' d sc' (lg' ++ [RWrite])
               end
             else upd_loop (pre ++ [j']) post' dk sc' lg'
         end
@@ -260,6 +264,7 @@ Definition launched (rerun seq repl : bool) (pre post app : list job) (dk : list
   match save (preA ++ post ++ appA) with
   | None => LStop (mkm (preA ++ post ++ appA) dk sc1 lg1 dirty) (Raised E_TYPE)
   | Some d1 =>
+      let lg1 := lg1 ++ [RWrite] in
       if seq then
         let '(x', sc2, lg2, o) := wait_loop (S (length sc1)) x sc1 lg1 in
         let '(preB, appB) := place rerun repl pre app old x' in
@@ -268,7 +273,7 @@ Definition launched (rerun seq repl : bool) (pre post app : list job) (dk : list
         | Returned =>
             match save (preB ++ post ++ appB) with
             | None => LStop (mkm (preB ++ post ++ appB) d1 sc2 lg2 (changed x x')) (Raised E_TYPE)
-            | Some d2 => LCont preB appB d2 sc2 lg2 false
+            | Some d2 => LCont preB appB d2 sc2 (lg2 ++ [RWrite]) false
             end
         end
       else LCont preA appA d1 sc1 lg1 false
@@ -335,15 +340,32 @@ Fixpoint launch_loop (c : cfg) (rerun seq repl : bool) (pre post app : list job)
       end
   end.
 
+(* decidable equality of file images (JobGroup._write_to_file_if_changed compares lists of dictionaries) *)
+Definition djobs_eq_dec : forall a b : list djob, {a = b} + {a <> b}.
+Proof. repeat decide equality. Defined.
+
+(* 9afb11d4: `finally: self._write_to_file_if_changed()` around the loop of _launch_jobs — on normal exit and on an
+   exception, the group is written once more iff its image differs from what this object last wrote or read (which is
+   the file content: only this object writes the file) *)
+Definition finish (c : cfg) (r : mach * outcome) : mach * outcome :=
+  if write_on_exit c then
+    let (m, o) := r in
+    match save (mem m) with
+    | None => (m, Raised E_TYPE)
+    | Some d => if djobs_eq_dec d (disk m) then (m, o)
+                else (mkm (mem m) d (scr m) (rlog m ++ [RWrite]) false, o)
+    end
+  else r.
+
 Definition launch (c : cfg) (rerun seq repl : bool) (m : mach) : mach * outcome :=
   if rerun then
-    (* job_nmb = len(self.list_unsuccessful_jobs()) : a refresh pass first *)
+    (* job_nmb = len(self.list_unsuccessful_jobs()) : a refresh pass first (outside the try) *)
     let '(m1, o) := update_statuses m in
     match o with
     | Raised e => (m1, Raised e)
-    | Returned => launch_loop c true seq repl [] (mem m1) [] (disk m1) (scr m1) (rlog m1) false
+    | Returned => finish c (launch_loop c true seq repl [] (mem m1) [] (disk m1) (scr m1) (rlog m1) false)
     end
-  else launch_loop c false seq repl [] (mem m) [] (disk m) (scr m) (rlog m) false.
+  else finish c (launch_loop c false seq repl [] (mem m) [] (disk m) (scr m) (rlog m) false).
 
 (* ---------------------------------------------------------------- operations *)
 Record spec := mkspec { s_name : Z; s_pay : payload; s_dcmd : option pval; s_dmap : mdelta; s_ctx : option Z;
@@ -391,7 +413,7 @@ Definition add_job (c : cfg) (m : mach) (j : job) (kms : option Z) (kbad : bool)
         let l := mem m ++ [j'] in
         match save l with
         | None => (mkm l (disk m) (scr m) (rlog m) (udirty m), Raised E_TYPE)
-        | Some d => (mkm l d (scr m) (rlog m) false, Returned)
+        | Some d => (mkm l d (scr m) (rlog m ++ [RWrite]) false, Returned)
         end
     end.
 
